@@ -170,7 +170,9 @@ def run_ladder(case):
     pre_x = np.random.default_rng(case["s"] + 9).normal(size=(case["kstep"] - 1, nf))
     w_init = None
     ham = trials.rand_ham(np.random.default_rng(case["s"] + 11), norb, nf, spin_dep=True, chol_scale=0.6)
-    for dt in (0.02, 0.01, 0.005):
+    dts = [0.02, 0.01, 0.005, 0.0025]
+    rvecs = []
+    for dt in dts:
         vals = []
         rhs = None
         for n in (n_lo, n_lo + 4):
@@ -205,11 +207,12 @@ def run_ladder(case):
             return {"events": [ev("quadrature/not-converged", None, key="C05/quadrature-not-converged", qerr=float(qerr))], "nontrivial": False,
                     "counters": {"quadrature_not_converged": 1}}
         resid.append(float(r))
-    events.append(judge("average/residual-at-smallest-dt", resid[2], 1e-3, key + "/residual-small", nexp=case["nexp"]))
-    ratios = [a / b for a, b in zip(resid[:-1], resid[1:]) if a > 1e-9 and b > 1e-12]
-    if ratios:
-        events.append(ev("average/residual-ratio-on-halving-dt", bool(min(ratios) >= 3.0), float(3.0 / min(ratios)), 1.0, key + "/order", ratios=ratios, residuals=resid,
-                         nexp=case["nexp"], kstep=case["kstep"]))
+        rvecs.append((vals[1] - rhs) / nr)
+    events.append(judge("average/residual-at-smallest-dt", resid[-1], 1e-3, key + "/residual-small", nexp=case["nexp"]))
+    ok, info = quad.second_order_verdict(dts, rvecs, 1.0)
+    ratios = info["ratios"]
+    if ok is not None:
+        events.append(ev("average/residual-is-second-order-in-dt", ok, float(3.0 / min(ratios)), 1.0, key + "/order", nexp=case["nexp"], kstep=case["kstep"], **info))
     return {"events": events, "nontrivial": bool(ratios), "sample": {"residuals": resid, "ratios": ratios, "kstep": case["kstep"], "nexp": case["nexp"]},
             "counters": {"ladders": 1}}
 
